@@ -47,9 +47,10 @@ EXACT_PAIRS = [("m", "km", 1000.0), ("cm", "m", 100.0), ("g", "kg", 1000.0), ("m
 
 def gen_value(rng, n=None):
     n = n if n is not None else rng.choice([2, 3, 3, 4])
-    kind = rng.choice(["arr", "arr", "vec"])
+    # "arr2": an Array of shape (n, 2) or (n, 3) -- same length as an (n,) member, another shape
+    kind = rng.choice(["arr", "arr", "arr", "arr", "vec", "vec", "arr2"])
     unit = rng.choice(["", "m", "cm", "km", "g", "s", "K"])
-    nc = rng.choice([1, 2, 3]) if kind == "vec" else 1
+    nc = rng.choice([1, 2, 3]) if kind == "vec" else (rng.choice([2, 3]) if kind == "arr2" else 1)
     dtype = rng.choice(["f8", "f8", "i8"]) if kind == "arr" else "f8"
     vals = [[float(rng.randrange(-8, 9)) * (1.0 if dtype == "i8" else rng.choice([1.0, 0.5, 0.25])) for _ in range(n)] for _ in range(nc)]
     return {"kind": kind, "unit": unit, "vals": vals, "dtype": dtype}
@@ -122,11 +123,15 @@ def build(val):
     dt = {"f8": float, "i8": np.int64}[val.get("dtype", "f8")]
     if val["kind"] == "arr":
         return osyris.Array(values=np.array(val["vals"][0], dtype=dt), unit=val["unit"])
+    if val["kind"] == "arr2":
+        return osyris.Array(values=np.array(val["vals"], dtype=float).T.copy(), unit=val["unit"])
     comps = [np.array(v, dtype=float) for v in val["vals"]]
     return osyris.Vector(*comps, unit=val["unit"])
 
 
 def mshape(val):
+    if val["kind"] == "arr2":
+        return (len(val["vals"][0]), len(val["vals"]))
     return (len(val["vals"][0]),)
 
 
@@ -135,7 +140,10 @@ def raw(obj):
 
     if isinstance(obj, osyris.Vector):
         return [np.array(c.values) for c in core.vcomps(obj)]
-    return [np.array(obj.values)]
+    v = np.array(obj.values)
+    if v.ndim == 2:
+        return [v[:, j] for j in range(v.shape[1])]
+    return [v]
 
 
 def model_equal(va, vb):
